@@ -9,7 +9,8 @@ Code followed (as it is, not as it should be):
   - `MatcherHandle::{all_rows, changes_since, max_change_id, last_change_id_sent}`.
 * `crates/klukai-agent/src/api/public/pubsub.rs`
   - `process_sub_channel`: the pipe matcher → `broadcast::Sender` (FIFO, arbitrary delay);
-  - `catch_up_sub` (+ `catch_up_sub_anew`, `catch_up_sub_from`) and `forward_sub_to_sender`.
+  - `catch_up_sub` (+ `catch_up_sub_anew`, `catch_up_sub_from`) and `forward_sub_to_sender`
+    (as of repo commit cb48448, which fixed F9; `Cfg.fixed := false` gives the code before it).
 * `tokio::sync::broadcast` (trusted): every receiver is a cursor into one stream; a receiver that
   is more than the capacity behind gets `Lagged` once and continues at the oldest retained value.
 
@@ -36,6 +37,11 @@ structure Cfg where
   bcap : Nat := 16384
   /-- number of re-reads in the reconcile loop -/
   attempts : Nat := 5
+  /-- `true`: the code since repo commit cb48448 (`forward_sub_to_sender` skips ids `≤` the last id
+  delivered during the catch-up; a lagged receiver ends the buffering task with an error).
+  `false`: the code before it (forwarding unfiltered; the lag is swallowed) — kept as a regression
+  witness, see `handover_duplicate_before_fix`. -/
+  fixed : Bool := true
 deriving Repr, DecidableEq, Inhabited
 
 /-- Matcher, change log, pipe and broadcast channel. -/
@@ -73,11 +79,13 @@ deriving Repr, DecidableEq, Inhabited
 /-- The buffering task spawned by `catch_up_sub`. -/
 inductive QTask where
   | running
-  /-- `sub_rx.recv()` returned `Lagged`: the `Ok(res) = …` branch is disabled, the task waits for the cancellation only -/
+  /-- (before cb48448 only) `sub_rx.recv()` returned `Lagged`: the `Ok(res) = …` branch is disabled, the task
+  waits for the cancellation only -/
   | stuck
   /-- left the loop after the cancellation and returned the receiver -/
   | stopped
-  /-- `try_send` failed (queue full): returned the error, receiver and queue sender dropped -/
+  /-- `try_send` failed (queue full) or (since cb48448) the receiver lagged: returned the error, receiver and
+  queue sender dropped -/
   | failed
 deriving Repr, DecidableEq, Inhabited
 
@@ -216,14 +224,20 @@ def stepMain (cfg : Cfg) (e : Env) (s : Sub) : Sub :=
     else { s with pc := .live, handed := true }
   | .live =>
     if lagging cfg e s then { s with pc := .done, out := s.out ++ [.closed] }
-    else if s.cur ≤ e.published then { s with cur := s.cur + 1, out := s.out ++ [.change s.cur] }
+    else if s.cur ≤ e.published then
+      if cfg.fixed then
+        -- `last_change_id: Some(last)`: ids `≤ last` were in flight at the hand-over, skip them
+        if s.cur ≤ s.last then { s with cur := s.cur + 1 }
+        else { s with cur := s.cur + 1, last := s.cur, out := s.out ++ [.change s.cur] }
+      else { s with cur := s.cur + 1, out := s.out ++ [.change s.cur] }
     else s
   | .done => s
 
 /-- The `sub_rx.recv()` branch of the buffering task. -/
 def stepQRecv (cfg : Cfg) (e : Env) (s : Sub) : Sub :=
   if s.qt = .running then
-    if lagging cfg e s then { s with qt := .stuck, cur := e.published + 1 - cfg.bcap }
+    if lagging cfg e s then
+      if cfg.fixed then { s with qt := .failed } else { s with qt := .stuck, cur := e.published + 1 - cfg.bcap }
     else if s.cur ≤ e.published then
       if cfg.qcap ≤ s.qTail - s.qHead then { s with qt := .failed }
       else { s with qTail := s.cur + 1, cur := s.cur + 1 }
